@@ -359,7 +359,8 @@ class Server:
 def step_objects(st, rid):
     ans = {"jsonrpc": "2.0", "id": rid}
     ans.update(st["answer"])
-    return list(st["notifs"]) + [ans]
+    # "$rid": a message of the server's own that happens to bear the id of the client's request in flight (ids are per direction)
+    return [({**n, "id": rid} if isinstance(n, dict) and n.get("id") == "$rid" else n) for n in st["notifs"]] + [ans]
 
 
 def step_texts(st, rid):
@@ -932,6 +933,21 @@ def explore(ctx, drv):
             st["enc"]["legacy_mode"] = "200"
             st["enc"]["legacy_status"] = status
             items.append(({"steps": [st]}, "turned-down-at-the-post-endpoint"))
+    # a request of the SERVER's own (ping, roots/list) bearing the id of the client's request in flight, sent before the answer:
+    # every carrier delivers both, and the helper still gets its answer
+    for kind, rid in (("raw", "a"), ("raw", 7), ("raw", "7"), ("tools_call", None), ("ping", None)):
+        for mode in ("200", "202"):
+            for lead in (0, 1):
+                st = gen_step(rng, kind)
+                if rid is not None:
+                    st["call"]["id"] = rid
+                st["notifs"] = [gen_notif(rng) for _ in range(lead)] + \
+                    [{"jsonrpc": "2.0", "id": "$rid", "method": rng.choice(["ping", "roots/list"])}]
+                if "error" in st["answer"]:
+                    st["answer"] = {"result": {"ok": True, "s": "é"}}
+                st["enc"] = gen_enc(rng, len(st["notifs"]) + 1)
+                st["enc"]["legacy_mode"] = mode
+                items.append(({"steps": [st]}, "server-request-with-the-pending-id"))
     # payloads that MENTION endpoint-like paths ("/mcp", "/messages/"), with the legacy server naming its events or not
     for untyped in (False, True):
         for mode in ("200", "202"):
